@@ -61,6 +61,7 @@ class Case:
     functions: list = []
     timeout_ms = 20000
     max_paths = 5000
+    budget_s = 240
 
     def body(self, ctx):
         raise NotImplementedError
@@ -92,7 +93,7 @@ def run_case(case: Case):
     from pyvc.interp import SOURCES
 
     t0 = time.time()
-    ex = Explorer(timeout_ms=case.timeout_ms, max_paths=case.max_paths, name=case.name)
+    ex = Explorer(timeout_ms=case.timeout_ms, max_paths=case.max_paths, name=case.name, budget_s=case.budget_s)
     recorded = {}
 
     def body(ctx):
